@@ -181,7 +181,7 @@ var C03 = &sim.Scenario{
 	Components: components,
 	Runs: func(th bool) int {
 		if th {
-			return 2000000
+			return 4000000
 		}
 		return 50000
 	},
